@@ -72,7 +72,7 @@ Proof.
                     [left; exists k', cl'; split; [exact Hl|split; [|exact Hp]]; rewrite nth_upd_other; [exact Hn|];
                      intros ->; rewrite Hk in Hn; injection Hn as <-; congruence
                     | right; exact Hcn] end].
-  all: timeout 120 hauto unfold: holds.
+  all: match goal with |- _ => timeout 20 hauto unfold: holds end.
 Qed.
 
 Lemma invprog_reachable c s : reachable c s -> InvLock s /\ InvProg s.
